@@ -1115,4 +1115,62 @@ theorem tp_mono_core (s : TpS) (c : TCall) (ha : s.active = true) (hnr : (!s.pre
     simp at h2
   · simp only [hge, if_false]; omega
 
+/-! ## The candidate fix of C04-tp-retrigger -/
+
+/-- The patched step ignores IN while a pulse runs: it is the original step on a state that
+remembers "IN was TRUE" whenever a pulse is active. -/
+theorem tpStepFixed_eq (s : TpS) (c : TCall) :
+    tpStepFixed s c = tpStep { s with prevIn := s.prevIn || s.active } c := by
+  cases hp : s.prevIn <;> cases ha : s.active <;> cases hc : c.inp <;>
+    simp [tpStepFixed, tpStep, hp, ha, hc] <;> split <;> simp
+
+theorem tpStepFixed_spec (s : TpS) (h : List TCall) (c : TCall) (hi : TpInv s h) :
+    TpInv (tpStepFixed s c).1 (c :: h) ∧ (tpStepFixed s c).2 = Spec.tpR (c :: h) := by
+  by_cases hact : s.active = true
+  · obtain ⟨hp, ht⟩ := hi
+    simp only [hact, if_true] at ht
+    rw [tpStepFixed_eq, tpStep_run _ c (by simp [hact])]
+    simp only [hact, Bool.or_true, Bool.not_true, Bool.false_and, Bool.false_eq_true, if_false]
+    simp only [TpInv, Spec.tpR, Spec.tpRunning, lastIn_cons, ht]
+    split <;> simp [*]
+  · have hact' : s.active = false := by simpa using hact
+    have hs : ({ s with prevIn := s.prevIn || s.active } : TpS) = s := by
+      cases s; simp_all
+    rw [tpStepFixed_eq, hs]
+    refine tpStep_spec s h c hi ?_
+    rintro ⟨_, _, h3⟩
+    rw [hi.2, hact'] at h3
+    simp at h3
+
+theorem tpRunFixed_inv (tr : List TCall) : TpInv (tpRunFixed tr) tr.reverse :=
+  foldl_inv0 (fun s c => (tpStepFixed s c).1) TpInv {} tpInv_init
+    (fun s h c hi => (tpStepFixed_spec s h c hi).1) tr
+
+theorem tpStepFixed_active_et (s : TpS) (c : TCall) (h : (tpStepFixed s c).1.active = true) :
+    (tpStepFixed s c).2.et = (tpStepFixed s c).1.et := by
+  rw [tpStepFixed_eq] at h ⊢
+  exact tpStep_active_et _ c h
+
+theorem execTpFixed_spec (i : TimerInst) (hx : List XCall) (c : XCall) (hi : TpXInv i hx) :
+    TpXInv (execTpFixed i c).1 (c :: hx) ∧ (execTpFixed i c).2 = Spec.tpR (Spec.toT (c :: hx)) := by
+  obtain ⟨hl, hinv⟩ := hi
+  obtain ⟨h1, h2⟩ := tpStepFixed_spec _ _ (c.toT i.last) hinv
+  unfold TpXInv
+  rw [toT_cons, ← hl]
+  refine ⟨⟨rfl, ?_⟩, h2⟩
+  simp only [execTpFixed]
+  obtain ⟨h1a, h1b⟩ := h1
+  refine ⟨h1a, ?_⟩
+  rw [h1b]
+  simp only
+  by_cases ht : (tpStepFixed { et := i.et, q := i.q, prevIn := i.prevIn, active := i.active }
+      (c.toT i.last)).1.active = true
+  · simp only [ht, if_true]
+    rw [tpStepFixed_active_et _ _ ht]
+  · simp [ht]
+
+theorem execTpRunFixed_inv (tr : List XCall) : TpXInv (execTpRunFixed tr) tr.reverse :=
+  foldl_inv0 (fun i c => (execTpFixed i c).1) TpXInv {} tpXInv_init
+    (fun i h c hi => (execTpFixed_spec i h c hi).1) tr
+
 end TrustVerif.C04
